@@ -38,6 +38,8 @@ def ty_vy(t):
         return f"HashMap[{ty_vy(t[1])}, {ty_vy(t[2])}]"
     if k == "bytes":
         return f"Bytes[{t[1]}]"
+    if k == "string":
+        return f"String[{t[1]}]"
     raise ValueError(t)
 
 
@@ -45,6 +47,8 @@ def ty_abi(t):
     k = t[0]
     if k == "bytes":
         return "bytes"
+    if k == "string":
+        return "string"
     if k in ("int", "bool"):
         return ty_vy(t)
     if k == "addr":
@@ -74,7 +78,7 @@ def ty_coq(t):
         return "(TStruct [" + "; ".join(ty_coq(ft) for _, ft in t[2]) + "])"
     if k == "map":
         return f"(TMap {ty_coq(t[1])} {ty_coq(t[2])})"
-    if k == "bytes":
+    if k in ("bytes", "string"):      # String[N] shares the model of Bytes[N] (len / concat / slice / equality)
         return f"(TBytes {t[1]})"
     raise ValueError(t)
 
@@ -93,7 +97,7 @@ def zero_val(t):
         return [zero_val(ft) for _, ft in t[2]]
     if k == "map":
         return {}
-    if k == "bytes":
+    if k in ("bytes", "string"):
         return b""
     raise ValueError(t)
 
@@ -116,6 +120,8 @@ def val_vy(v, t):
         return "True" if v else "False"
     if k == "bytes":
         return 'b"' + "".join(f"\\x{b:02x}" for b in v) + '"'
+    if k == "string":
+        return '"' + bytes(v).decode("ascii") + '"'
     if k == "int":
         return str(v)
     if k == "addr":
